@@ -107,6 +107,9 @@ func FieldValue(obj interface{}, path string) (interface{}, bool) {
 		if v.Kind() != reflect.Struct {
 			return nil, false
 		}
+		if sf, ok := v.Type().FieldByName(name); !ok || !sf.IsExported() {
+			return nil, false // only exported fields are part of an object's value
+		}
 		v = v.FieldByName(name)
 		if !v.IsValid() {
 			return nil, false
